@@ -548,7 +548,8 @@ def json_oddities(files):
     p = files.p
     return [None, True, False, 0, 7, -3, 2.5, 1.0, NAN, float("inf"), "NaN", "inf", "", "abc", "none", p["missing.tif"],
             p["junk.tif"], p["adir"], p["l.tif"], p["g_ok.tif"], p["m_small.tif"], [], [1], [1, 2], [2, 1], [-2, 2, 7],
-            [1, 2, 3, 4], [1.0, 2], [1, "2"], [True, 3], [None, 1], [[1, 2]], [NAN], [[NAN]], {}, {"a": 1}, {"a": {}}]
+            [1, 2, 3, 4], [1.0, 2], [1, "2"], [True, 3], [None, 1], [[1, 2]], [NAN], [[NAN]], {}, {"a": 1}, {"a": {}},
+            {"a": "NaN", "b": {"c": "inf"}}]
 
 
 def input_violations(files):
@@ -750,12 +751,8 @@ def run_inputs(ctx, model, files, cases):
                         for k, v in comp["input"][side].items():
                             if not same_json(out["input"][side].get(k, "<absent>"), v):
                                 lost.append((side, k, v))
-                if lost and all(v == {} for _, _, v in lost):
-                    ctx.violation("empty_dict_value_replaced_by_default",
-                                  f"{lost[0][0]}.{lost[0][1]}: {{}} accepted and replaced by the default", replay)
-                else:
-                    ctx.violation("user_value_not_kept", f"accepted configuration differs from the user's section "
-                                  f"completed with the documented defaults: {lost}", replay)
+                ctx.violation("user_value_not_kept", f"accepted configuration differs from the user's section "
+                              f"completed with the documented defaults: {lost}", replay)
         elif doc_user:
             ctx.violation("documented_input_refused", f"check_input_section raised (class {impl[1]}) on a documented "
                           f"section ({cs['kind']} {cs.get('what')})", replay)
